@@ -37,16 +37,20 @@ type c06Case struct {
 	G          int  `json:"g"`
 	// AcceptErr selects which error the links' AcceptStream returns once they are gone (link i uses AcceptErr+i)
 	AcceptErr int `json:"accept_err,omitempty"`
+	// SlowConsumer (microseconds): the consumers of the link requests spend that long inside their value-added
+	// callback, so that the next event arrives while a request is still publishing the previous state
+	SlowConsumer int `json:"slow_consumer_us,omitempty"`
 }
 
 func (l c06Link) uuid() uint64 { return uint64(1000 + l.Remote*10 + l.Addr) }
 
 func genC06(t *rapid.T) c06Case {
 	c := c06Case{
-		LossOnClose: rapid.SampledFrom([]string{"on", "on", "off", "late"}).Draw(t, "loc"),
-		Concurrent:  rapid.IntRange(0, 3).Draw(t, "conc") == 0,
-		G:           rapid.IntRange(2, 3).Draw(t, "g"),
-		AcceptErr:   rapid.IntRange(0, 4).Draw(t, "accepterr"),
+		LossOnClose:  rapid.SampledFrom([]string{"on", "on", "off", "late"}).Draw(t, "loc"),
+		Concurrent:   rapid.IntRange(0, 3).Draw(t, "conc") == 0,
+		G:            rapid.IntRange(2, 3).Draw(t, "g"),
+		AcceptErr:    rapid.IntRange(0, 4).Draw(t, "accepterr"),
+		SlowConsumer: rapid.SampledFrom([]int{0, 0, 300, 2000, 5000}).Draw(t, "slowconsumer"),
 	}
 	nl := rapid.IntRange(2, 4).Draw(t, "nlinks")
 	for i := 0; i < nl; i++ {
@@ -336,6 +340,11 @@ func (x *c06Run) checkTables(m *c06Model, c c06Case, watchers map[int]*watcher, 
 }
 
 func checkC06(c c06Case) (o vstat.Outcome) {
+	slowWatch.Store(int64(c.SlowConsumer) * int64(time.Microsecond))
+	defer slowWatch.Store(0)
+	if c.SlowConsumer > 0 {
+		o.Classes = append(o.Classes, "slow-value-consumer")
+	}
 	r, err := newRig(0)
 	if err != nil {
 		o.Discard = true
